@@ -38,9 +38,10 @@ struct C64World {
     }
   }
   static Paths64 bits(const PathsD& ps) { Paths64 r; for (auto& p : ps) { Path64 q; for (auto& v : p) { int64_t a, b; memcpy(&a, &v.x, 8); memcpy(&b, &v.y, 8); q.emplace_back(a, b); } r.push_back(q); } return r; }
+  PolyTree64 shared_tree;   // deliberately reused by every tree execution of every object: Execute must clear it
   Res exec(Clipper64& c, int op, int arg) { Res r; auto cf = ctfr[arg - 1];
     if (op == 7) r.ok = c.Execute((ClipType)cf.first, (FillRule)cf.second, r.closed, r.open);
-    else { PolyTree64 t; r.ok = c.Execute((ClipType)cf.first, (FillRule)cf.second, t, r.open); flatten_tree(t, 0, r.tree.nodes, r.tree.par); }
+    else { PolyTree64& t = shared_tree; r.ok = c.Execute((ClipType)cf.first, (FillRule)cf.second, t, r.open); flatten_tree(t, 0, r.tree.nodes, r.tree.par); }
     return r; }
   static void flatD(const PolyPathD& pp, int parent, PathsD& nodes, std::vector<long long>& par) { for (auto it = pp.begin(); it != pp.end(); ++it) { nodes.push_back((*it)->Polygon()); par.push_back(parent); int me = (int)nodes.size(); flatD(**it, me, nodes, par); } }
   Res exec(ClipperD& c, int op, int arg) { Res r; auto cf = ctfr[arg - 1]; PathsD cl, opn;
@@ -85,8 +86,8 @@ struct OffGroup { Paths64 paths; JoinType jt; EndType et; bool units_by_path; };
 struct OffWorld {
   std::vector<OffGroup> groups; std::vector<double> deltas;
   std::map<Path64, int, bool (*)(const Path64&, const Path64&)> ring_ids{path_less};
-  int ring_id(const Path64& p) { Path64 c = canon_path(p); auto it = ring_ids.find(c); if (it != ring_ids.end()) return it->second; int id = (int)ring_ids.size() + 1; ring_ids[c] = id; if (ring_os) (*ring_os) << Ev("Ring").kn("id", id).kv("p", jpath(c)).str() << "\n"; return id; }
-  std::ostream* ring_os = nullptr;   // every distinct ring is logged once, so the spec can decide class predicates on raw coordinates
+  int ring_id(const Path64& p) { Path64 c = canon_path(p); auto it = ring_ids.find(c); if (it != ring_ids.end()) return it->second; int id = (int)ring_ids.size() + 1 + id_bias; ring_ids[c] = id; if (ring_os) (*ring_os) << Ev("Ring").kn("id", id).kv("p", jpath(c)).str() << "\n"; return id; }
+  std::ostream* ring_os = nullptr; int id_bias = 0;   // rings first seen inside a forked chunk get ids that no other chunk uses   // every distinct ring is logged once, so the spec can decide class predicates on raw coordinates
   std::vector<long long> ids(const Paths64& ps) { std::vector<long long> v; for (auto& p : ps) v.push_back(ring_id(p)); std::sort(v.begin(), v.end()); return v; }
   OffWorld(Rng& r, int G, int K, bool negative) {
     // groups far apart (x offsets 4000 apart; deltas <= 30): they cannot interact
@@ -135,6 +136,25 @@ void run_off(OffWorld& w, const JV& hist, std::ostream& os, long long& nexec) {
   os << Ev("Hist").ks("kind", "off").kv("steps", jarr(steps.begin(), steps.end(), id)).kv("obs", jarr(obs.begin(), obs.end(), id)).kv("fresh", jarr(fresh.begin(), fresh.end(), id)).str() << "\n";
 }
 
+// histories are replayed in forked chunks; a chunk whose child dies is replayed history by history so that the Crash event names the history
+template <class F> void run_chunked(std::istream& in, std::ostream& os, long long skip, long long stride, long long& nh, const std::string& kind, F one) {
+  std::vector<std::string> chunk; std::string line; long long cnt = 0, chunk_no = 0;
+  auto flush = [&]() {
+    if (chunk.empty()) return;
+    ++chunk_no;
+    std::ostringstream tmp;
+    bool ok = guarded(tmp, "\"case\":{\"chunk\":" + jnum((long long)chunk.size()) + "}", 600, [&](std::ostream& o) { for (auto& l : chunk) one(l, o, chunk_no); });
+    if (ok) os << tmp.str();
+    else {   // the child died somewhere in the chunk: replay history by history so that the Crash event names the history
+      long long sub = 0;
+      for (auto& l : chunk) { ++sub; guarded(os, "\"kind\":" + jstr(kind) + ",\"case\":{\"steps\":" + l + "}", 120, [&](std::ostream& o) { one(l, o, chunk_no * 1000 + sub); }); }
+    }
+    chunk.clear();
+  };
+  while (std::getline(in, line)) { if (line.empty() || (cnt++ % stride) != skip) continue; ++nh; chunk.push_back(line); if (chunk.size() >= 400) flush(); }
+  flush();
+}
+
 // vh hist --kind c64|cd|off|rc --in histories.ndjson --seed S --K k --G g --out file
 int cmd_hist(const Args& a) {
   Rng r((uint64_t)argi(a, "seed", 1)); std::string kind = args(a, "kind", "c64");
@@ -144,7 +164,7 @@ int cmd_hist(const Args& a) {
   if (kind == "c64" || kind == "cd") {
     C64World w(r, K, argi(a, "rectil", 0) != 0, kind == "cd");
     os << Ev("World").ks("kind", kind).kv("s1", jpaths(w.set[1])).kv("s2", jpaths(w.set[2])).kv("s3", jpaths(w.set[3])).kv("s4", jpaths(w.set[4])).kv("s5", jpaths(w.set[5])).kv("s0", jpaths(w.set[0])).str() << "\n";
-    while (std::getline(in, line)) { if (line.empty() || (cnt++ % stride) != skip) continue; JV h = jparse(line); ++nh; if (kind == "c64") run_c64<Clipper64>(w, h, os, "c64", r, nexec); else run_c64<ClipperD>(w, h, os, "cd", r, nexec); }
+    run_chunked(in, os, skip, stride, nh, kind, [&](const std::string& l, std::ostream& o, long long) { JV h = jparse(l); if (kind == "c64") run_c64<Clipper64>(w, h, o, "c64", r, nexec); else run_c64<ClipperD>(w, h, o, "cd", r, nexec); });
   } else if (kind == "off") {
     bool neg = argi(a, "negative", 0) != 0; OffWorld w(r, G, K, neg); w.ring_os = &os;
     // preamble: every unit (path, or whole group when it has holes) offset ALONE with its group's join/end type
@@ -155,18 +175,24 @@ int cmd_hist(const Args& a) {
       std::sort(all.begin(), all.end());
       os << Ev("OffUnit").kn("g", g).kn("d", d).kn("rs", rs).kn("et", (int)og.et).kn("jt", (int)og.jt).kn("npaths", (long long)og.paths.size()).kv("ids", jints(all)).str() << "\n";
     }
-    while (std::getline(in, line)) { if (line.empty() || (cnt++ % stride) != skip) continue; JV h = jparse(line); ++nh; run_off(w, h, os, nexec); }
+    run_chunked(in, os, skip, stride, nh, kind, [&](const std::string& l, std::ostream& o, long long cno) { w.ring_os = &o; w.id_bias = (int)(cno % 2000) * 1000000; JV h = jparse(l); run_off(w, h, o, nexec); });
   } else if (kind == "rc") {
     Rect64 rect(20, 20, 80, 80); std::vector<Paths64> sets;
-    for (int g = 0; g < G; ++g) { Paths64 ps; int n = (int)r.range(1, 3); for (int i = 0; i < n; ++i) ps.push_back(rpoly(r, 100, (int)r.range(3, 7))); sets.push_back(ps); }
-    while (std::getline(in, line)) { if (line.empty() || (cnt++ % stride) != skip) continue; JV hist = jparse(line); ++nh;
+    for (int g = 0; g < G; ++g) { Paths64 ps; int n = (int)r.range(1, 3);
+      if (g == 0) ps = {{{60, 130}, {130, 60}, {120, 125}}};                                  // entirely outside, but its bounding box overlaps the rectangle (passes beyond a corner)
+      else if (g == 1) ps = {{{50, 0}, {100, 0}, {100, 100}, {0, 100}}, {{90, 110}, {110, 90}, {105, 108}}};   // crosses the rectangle; then an outside path again
+      else for (int i = 0; i < n; ++i) ps.push_back(rpoly(r, 100, (int)r.range(3, 7)));
+      sets.push_back(ps); }
+    run_chunked(in, os, skip, stride, nh, kind, [&](const std::string& l, std::ostream& o, long long) { JV hist = jparse(l);
       RectClip64 rc(rect); RectClipLines64 rl(rect); std::vector<std::string> steps, obs, fresh;
       for (size_t i = 0; i < hist.size(); ++i) { int op = (int)hist[i][0].i(), arg = (int)hist[i][1].i(); steps.push_back(jints({op, arg}));
         Paths64 got = rc.Execute(sets[arg - 1]); RectClip64 f(rect); Paths64 want = f.Execute(sets[arg - 1]);
+        // a fresh object per PATH as well: results must not depend on the other paths of the same call
+        Paths64 perpath; for (auto& p : sets[arg - 1]) { RectClip64 f1(rect); Paths64 r1 = f1.Execute(Paths64{p}); perpath.insert(perpath.end(), r1.begin(), r1.end()); }
         Paths64 gl = rl.Execute(sets[arg - 1]); RectClipLines64 fl(rect); Paths64 wl = fl.Execute(sets[arg - 1]); nexec += 4;
-        obs.push_back(jints({(long long)i + 1, got == want && gl == wl, 1, (long long)got.size()})); fresh.push_back("[[],0,0]"); }
+        obs.push_back(jints({(long long)i + 1, got == want && gl == wl && got == perpath, 1, (long long)got.size()})); fresh.push_back("[[],0,0]"); }
       auto id = [](const std::string& s) { return s; };
-      os << Ev("Hist").ks("kind", "rc").kv("steps", jarr(steps.begin(), steps.end(), id)).kv("obs", jarr(obs.begin(), obs.end(), id)).kv("fresh", jarr(fresh.begin(), fresh.end(), id)).str() << "\n"; }
+      o << Ev("Hist").ks("kind", "rc").kv("steps", jarr(steps.begin(), steps.end(), id)).kv("obs", jarr(obs.begin(), obs.end(), id)).kv("fresh", jarr(fresh.begin(), fresh.end(), id)).str() << "\n"; });
   }
   fprintf(stderr, "histories=%lld execs=%lld\n", nh, nexec);
   return 0;
